@@ -149,9 +149,11 @@ def lean_audit(spec: PropSpec) -> Dict[str, Any]:
         out = r.stdout + r.stderr
         if r.returncode != 0:
             problems.append("axiom audit failed to run: " + out[-1500:])
-        for m in re.finditer(r"'([^']+)' depends on axioms: \[([^\]]*)\]", out.replace("\n", " ")):
+        flat = out.replace("\n", " ")
+        # theorem names may contain primes (mapM'_cons): a name is a run of non-blank characters
+        for m in re.finditer(r"'(\S+?)' depends on axioms: \[([^\]]*)\]", flat):
             axioms[m.group(1)] = [a.strip() for a in m.group(2).split(",") if a.strip()]
-        for m in re.finditer(r"'([^']+)' does not depend on any axioms", out):
+        for m in re.finditer(r"'(\S+?)' does not depend on any axioms", flat):
             axioms[m.group(1)] = []
         for t in thms:
             if t not in axioms:
